@@ -370,6 +370,7 @@ class Inliner:
         self.renamed: Dict[str, str] = {}
         self.new_classes: set = set()
         self.new_methods: Dict[str, List[str]] = {}
+        self._typed: Dict[str, str] = {}
         if baseline is not None:
             self.renamed = detect_renames(self.funcs, baseline)
             if self.renamed:
@@ -453,6 +454,8 @@ class Inliner:
                     return q, self.unknown[q], True
             # instance.method(...) where the method name belongs to exactly one new private class
             qs = self.new_methods.get(f.attr)
+            if qs and self._typed.get(f.value.id) != qs[0].split(".")[0]:
+                qs = None  # the receiver is not known to be an instance of that class
             if qs and f.value.id not in ("self", "cls") and not any(isinstance(d, ast.Name) and d.id in ("staticmethod", "classmethod") for d in self.unknown[qs[0]].node.decorator_list):
                 return qs[0], self.unknown[qs[0]], True
         return None
@@ -943,6 +946,28 @@ class Inliner:
         ast.fix_missing_locations(fd)
         return fd
 
+    def _type_names(self, fn: ast.AST) -> None:
+        """names in fn known to hold an instance of a new private class (constructed here or annotated parameter)."""
+        self._typed: Dict[str, str] = {}
+        if not self.new_classes:
+            return
+        for a in ast.walk(fn):
+            if isinstance(a, ast.arg) and a.annotation is not None:
+                t = ast.unparse(a.annotation).strip("'\"")
+                if t in self.new_classes:
+                    self._typed[a.arg] = t
+            if isinstance(a, (ast.Assign, ast.AnnAssign)):
+                tg = a.targets[0] if isinstance(a, ast.Assign) and len(a.targets) == 1 else getattr(a, "target", None)
+                v = a.value
+                if isinstance(tg, ast.Name) and isinstance(v, ast.Call):
+                    c = v.func
+                    if isinstance(c, ast.Name) and c.id in self.new_classes:
+                        self._typed[tg.id] = c.id
+                    elif isinstance(c, ast.Attribute) and isinstance(c.value, ast.Name) and c.value.id in self.new_classes:
+                        self._typed[tg.id] = c.value.id
+            if isinstance(a, (ast.For, ast.comprehension)) and isinstance(a.target, ast.Name):
+                pass
+
     def _closure_convert(self, stmts: List[ast.stmt], cls) -> List[ast.stmt]:
         outer = self
         out: List[ast.stmt] = []
@@ -974,6 +999,8 @@ class Inliner:
                     # a bound method of a new private class used as a value:  on_error=recorder.record
                     self.generic_visit(a)
                     qs = outer.new_methods.get(a.attr) if isinstance(a.ctx, ast.Load) and isinstance(a.value, ast.Name) else None
+                    if qs and outer._typed.get(a.value.id) != qs[0].split(".")[0]:
+                        qs = None
                     if qs and id(a) not in self._call_funcs:
                         fake = ast.Call(func=ast.Name(id="partial", ctx=ast.Load()), args=[a], keywords=[])
                         outer._n_closures += 1
@@ -1060,11 +1087,13 @@ class Inliner:
         self._n_closures = 0
         self._nested_done: Dict[str, _Info] = {}
         for q, inf in list(self.funcs.items()):
+            self._type_names(inf.node)
             inf.node.body = self._closure_convert(inf.node.body, inf.cls)
         for _ in range(max_rounds):
             before = len(self.done)
             for q, inf in list(self.funcs.items()):
                 self._caller_names = {x.id for x in ast.walk(inf.node) if isinstance(x, ast.Name)} | {a.arg for a in ast.walk(inf.node) if isinstance(a, ast.arg)}
+                self._type_names(inf.node)
                 # closures that are not in the baseline inventory (newly introduced nested helpers) are
                 # inlinable inside their enclosing function, provided they are only ever called
                 added = []
